@@ -190,7 +190,7 @@ class ProcCtx:
         self.solver, self.pre = make_solver(self.inputs, p_ir, timeout_ms)
         self.r1 = run(p_ir, self.inputs, self.solver, "p_", "uf")
         sync_assumptions(self.solver, self.inputs)
-        self.safe_p = [o.formula for o in self.r1.obls if o.kind != "unwind"]
+        self.safe_p = [o.formula for o in self.r1.obls if o.kind not in ("unwind", "window_overhang", "alloc_extent")]
         self.r1_exact = None
         self.queries = 0
         self.solver_s = 0.0
@@ -375,7 +375,7 @@ class ProcCtx:
         return verdict
 
     # -- obligations ----------------------------------------------------------
-    def check_obligations(self, q_ir, r2, kinds=None, assume_safe_p=True, skip_kinds=("unwind",), check_view=True):
+    def check_obligations(self, q_ir, r2, kinds=None, assume_safe_p=True, skip_kinds=("unwind", "window_overhang", "alloc_extent"), check_view=True):
         """returns list of (Obl, cex, desc) for violated+replayed obligations, and count inconclusive"""
         obls = [o for o in r2.obls if o.kind not in skip_kinds and (kinds is None or o.kind in kinds)]
         if not obls:
